@@ -86,6 +86,13 @@ def case_st(draw):
                                                                               around_leaf="leaf"))}, "allaxes": True},
                              draw(st.sampled_from([{"k": "groups", "v": ["part"]}, {"k": "off", "v": ["mesh"]},
                                                    {"k": "plain"}]))]
+    # ... and a level-capped call followed by a mesh load whose selection has another form
+    if draw(st.integers(0, 9)) < 4:
+        follow = draw(st.sampled_from([{"k": "groups", "v": ["mesh"]}, {"k": "groups", "v": ["mesh", "part"]},
+                                       {"k": "plain"}, {"k": "vars", "v": {"mesh": ["density", "level", "dx"]}},
+                                       {"k": "cpu_list", "v": [1, 2]}, {"k": "off", "v": ["part"]}]))
+        calls = calls[:4] + [{"k": "pred", "spec": {"level": {"t": "le", "k": draw(st.integers(1, max(case["levelmax"] - 1, 1)))}}},
+                             follow]
     case["calls"] = calls
     return case
 
